@@ -67,6 +67,18 @@ func (l *cbkLog) add(reg int, result bool, m api.ResponseMessage) {
 	l.mu.Unlock()
 }
 
+// seen: has registration reg been invoked so far (the log is left as it is)
+func (l *cbkLog) seen(reg int) bool {
+	l.mu.Lock()
+	defer l.mu.Unlock()
+	for _, x := range l.items {
+		if x.reg == reg {
+			return true
+		}
+	}
+	return false
+}
+
 func (l *cbkLog) take() []cbkInv {
 	l.mu.Lock()
 	defer l.mu.Unlock()
@@ -1054,7 +1066,21 @@ func cbkReentry(r *h.Report, base int, skips bool) bool {
 						_ = feat.AddResponseCallback(c+2, cbkMk3(w.log, 12))
 					}()
 					ok := cbkWithin(regDone, bound)
+					// round 7: the callbacks of one counter are independent of each other - while the first one is still
+					// running (it may be waiting for something a sibling does) the others must have been invoked
+					sibs := true
+					for i := 1; i < n && sibs; i++ {
+						t1 := time.Now()
+						for !w.log.seen(i) && h.Kept(t1) < bound {
+							time.Sleep(200 * time.Microsecond)
+						}
+						sibs = w.log.seen(i)
+					}
 					close(release)
+					if !sibs {
+						r.SpecFail("C14/running-callback-holds-up-siblings", ops, fmt.Sprintf("%d callbacks wait for counter %d; while the first one was still running the others were not invoked within %v of kept time: a callback that waits for what a sibling does is never followed by that sibling", n, c, bound))
+						return false
+					}
 					if !ok {
 						r.SpecFail("C14/running-callback-blocks-registration", ops, fmt.Sprintf("while a callback invoked for counter %d was still running, AddResponseCallback for counter %d on the same feature from another goroutine did not return within %v of kept time: the callback runs inside the registry's critical section", c, c+2, bound))
 						return false
